@@ -45,6 +45,8 @@ Lemma allok_pc s p : AllOk s -> AllOk (with_pc s p).
 Proof. intros A c x H. apply (A c x H). Qed.
 Lemma allok_lists s q r cl : AllOk s -> AllOk (with_lists s q r cl).
 Proof. intros A c x H. apply (A c x H). Qed.
+Lemma allok_sig s b d : AllOk s -> AllOk (with_sig s b d).
+Proof. intros A c x H. apply (A c x H). Qed.
 
 Lemma bytes_same sn pc x y : same_stream x y -> bytes_ok sn pc x -> bytes_ok sn pc y.
 Proof. intros (E1 & E2 & E3) [B1 B2]. unfold bytes_ok. rewrite E1, E2, E3. auto. Qed.
@@ -104,14 +106,14 @@ Proof.
 Qed.
 
 (* announcement: the stream is (re)bound while nothing has been read *)
-Lemma allok_announce s c (g : ctx -> nat) s' :
-  AllOk s -> on_ctx s c (fun x => l_announce x (g x)) = Some s' -> AllOk s'.
+Lemma allok_announce s c (g : ctx -> nat) cb s' :
+  AllOk s -> on_ctx s c (fun x => l_announce x (g x) cb) = Some s' -> AllOk s'.
 Proof.
   intros A H. unfold on_ctx in H. destruct (nth_error (ctxs s) c) as [x|] eqn:E; [|discriminate].
-  destruct (l_announce x (g x)) as [y|] eqn:F; [|discriminate]. inversion H; subst; clear H.
+  destruct (l_announce x (g x) cb) as [y|] eqn:F; [|discriminate]. inversion H; subst; clear H.
   intros d z Hz. simpl in Hz. destruct (nth_put _ _ _ _ _ Hz) as [(-> & -> & _)|(Ne & Hd)].
   - destruct (A c x E) as [C B]. split; [eapply l_announce_ok; eauto|].
-    destruct (l_announce_fresh x (g x) y C F) as (E1 & E2 & E3). unfold bytes_ok. simpl. rewrite E2, E3.
+    destruct (l_announce_fresh x (g x) cb y C F) as (E1 & E2 & E3). unfold bytes_ok. simpl. rewrite E2, E3.
     split; [eexists; reflexivity|discriminate].
   - apply (A d z Hd).
 Qed.
@@ -140,7 +142,7 @@ Lemma step_allok s e s' r : AllOk s -> step s e = Some (s', r) -> AllOk s'.
 Proof.
   intros A H. destruct e; unfold step, ret0 in H.
   - (* halloc *) inversion H; subst. apply allok_add; auto. apply new_ctx_ok. left; auto.
-  - (* hand *) break H. apply allok_lists.
+  - (* hand *) break H. apply allok_sig, allok_lists.
     eapply allok_on_ctx; [exact A| |eassumption]. use_local l_hand_ok l_hand_same.
   - (* send *) break H. intros c x Hx. simpl in *. destruct (A c x Hx) as [C [[rest B1] B2]].
     split; [assumption|]. unfold bytes_ok, upd. destruct (Nat.eqb_spec (k_conn x) n) as [En|Ne].
@@ -212,10 +214,16 @@ Proof.
   - (* tau break *) break H. eapply allok_enter_clear; [|eassumption]. apply allok_lists; assumption.
   - (* wake begin *) break H. apply allok_pc; assumption.
   - (* wake unlock *) break H. apply allok_pc; assumption.
+  - (* signal by a hand-over *) break H. apply allok_sig; assumption.
+  - (* signal by anyone *) break H. apply allok_sig; assumption.
+  - (* clear-up *) break H. apply allok_pc, allok_sig; assumption.
+  - (* sleep *) break H. assumption.
 Qed.
 
-Lemma init_allok : AllOk init.
+Lemma initf_allok f : AllOk (initf f).
 Proof. intros c x H. destruct c; discriminate. Qed.
+Lemma init_allok : AllOk init.
+Proof. apply initf_allok. Qed.
 
 Lemma run_allok h : forall s, AllOk s -> AllOk (run s h).
 Proof.
@@ -224,13 +232,14 @@ Proof.
 Qed.
 
 Section Theorems.
+  Variable f : cbflags.      (* which optional callbacks are installed: every theorem holds for every configuration *)
   Variable h : list ev.
-  Let s := run init h.
+  Let s := run (initf f) h.
   Variables (c : nat) (x : ctx).
   Hypothesis Hx : nth_error (ctxs s) c = Some x.
 
   Lemma ctx_ok : cok x /\ bytes_ok (sent s) (pclosed s) x.
-  Proof. apply (run_allok h init init_allok c x Hx). Qed.
+  Proof. apply (run_allok h (initf f) (initf_allok f) c x Hx). Qed.
 
   (* announced (cb_conn / cb_add_ctx) at most once *)
   Lemma announced_once : k_ann x <= 1.
@@ -270,10 +279,10 @@ End Theorems.
    fragments, is retained by a worker, the peer closes, the loop closes it and drops its
    reference silently, the worker's release is the last one and frees; exit clears the listener *)
 Definition demo_history : list ev :=
-  [EHalloc KListen 0; EHand 0; ETauWakeBegin; EReg 0 true; EAddctx 0; ETauWakeUnlock; EWake;
+  [EHalloc KListen 0; EHand 0; ESigHand 0; ESigClear; ETauWakeBegin; EReg 0 true; EAddctx 0; ETauWakeUnlock; EWake;
    EAccepted; EAlloc 1; EReg 1 true; EConn 1 5;
    ESend 5 [1;2;3]%Z; EMsg 1; ERd 1 [1;2]%Z; ERetain 1; ERd 1 [3]%Z; EPclose 5; ERdEof 1; EClose 1; ETauRel;
-   EWrel 1; EWrelease 1; EFdclose 1; EWfree 1; EExitreq; ETauBreak; ERelease 0; EFdclose 0; EFree 0; EReturned].
+   EWrel 1; EWrelease 1; EFdclose 1; EWfree 1; ESleep; EExitreq; ESigw; ETauBreak; ERelease 0; EFdclose 0; EFree 0; EReturned].
 Example demo_run :
   let s := run init demo_history in
   pc s = PDone /\
@@ -283,24 +292,24 @@ Example demo_run :
 Proof. vm_compute. repeat split; reflexivity. Qed.
 (* the accept path's registration failure frees without announcing; the hand-over's releases *)
 Example demo_failures :
-  let s := run init [EHalloc KListen 0; EHand 0; ETauWakeBegin; EReg 0 true; EAddctx 0; ETauWakeUnlock; EWake;
+  let s := run init [EHalloc KListen 0; EHand 0; ESigHand 0; ESigClear; ETauWakeBegin; EReg 0 true; EAddctx 0; ETauWakeUnlock; EWake;
                      EAccepted; EAllocfail; EFdcloseNew;
                      EAccepted; EAlloc 1; EReg 1 false; EFree 1; EFdclose 1;
-                     EHalloc KConn 7; EHand 2; ETauWakeBegin; EReg 2 false; ERelease 2; EFdclose 2; EFree 2;
+                     EHalloc KConn 7; EHand 2; ESigHand 2; ESigClear; ETauWakeBegin; EReg 2 false; ERelease 2; EFdclose 2; EFree 2;
                      ETauWakeUnlock; EWake] in
   pc s = PIdle /\
   map (fun x => (k_ann x, k_nrel x, k_nfdc x, k_nfree x, k_freed x, k_ref x)) (ctxs s)
     = [(1, 0, 0, 0, false, 1%Z); (0, 0, 1, 1, true, 1%Z); (0, 1, 1, 1, true, 0%Z)].
 Proof. vm_compute. repeat split; reflexivity. Qed.
 
-Lemma freed_once h c x :
-  nth_error (ctxs (run init h)) c = Some x ->
+Lemma freed_once f h c x :
+  nth_error (ctxs (run (initf f) h)) c = Some x ->
   (k_ncl x <= 1 /\ k_nrel x <= 1 /\ k_nfdc x <= 1 /\ k_nfree x <= 1)%nat /\
   (k_freed x = true -> k_nfree x = 1%nat /\ (k_ref x = 0%Z \/ k_pub x = false)) /\
   (k_freed x = false -> k_nfree x = 0%nat) /\
   (k_nrel x = 1%nat -> k_ref x = 0%Z \/ k_freed x = true).
 Proof.
-  intros H. destruct (freed_once_at_zero h c x H) as (A & B & C & D & E & F & G & _).
+  intros H. destruct (freed_once_at_zero f h c x H) as (A & B & C & D & E & F & G & _).
   split; [repeat split; assumption|]. split; [assumption|]. split; assumption.
 Qed.
 
@@ -310,14 +319,14 @@ Qed.
    callback before cb_close (all three back-ends read before they test the flag).  Together with
    bytes_in_order (a read returning 0 at the end of the stream implies got = sent) this covers
    every cb_close of a connection that was neither shut down locally nor reset nor in error. *)
-Lemma close_on_hup_after_all_bytes h c x s' r :
-  let s := run init h in
+Lemma close_on_hup_after_all_bytes f h c x s' r :
+  let s := run (initf f) h in
   step s (EClose c) = Some (s', r) ->
   nth_error (ctxs s) c = Some x ->
   k_flag x = false -> preset s (k_conn x) = false ->
   pclosed s (k_conn x) = true /\ k_got x = sent s (k_conn x).
 Proof.
-  intros s H Hx Hf Hr. destruct (run_allok h init init_allok c x Hx) as [_ [[rest B1] _]]. fold s in B1.
+  intros s H Hx Hf Hr. destruct (run_allok h (initf f) (initf_allok f) c x Hx) as [_ [[rest B1] _]]. fold s in B1.
   unfold step in H. destruct (spc_eqb (pc s) PIdle); [|discriminate]. rewrite Hx in H.
   unfold on_ctx in H. rewrite Hx in H. unfold l_close, hup_only in H. rewrite Hf, Hr in H. simpl in H.
   destruct (loc_eqb (k_loc x) LReg); simpl in H; [|discriminate].
@@ -328,7 +337,7 @@ Proof.
 Qed.
 
 Example close_on_hup_nonvacuous :
-  let h := [EHalloc KListen 0; EHand 0; ETauWakeBegin; EReg 0 true; EAddctx 0; ETauWakeUnlock; EWake;
+  let h := [EHalloc KListen 0; EHand 0; ESigHand 0; ESigClear; ETauWakeBegin; EReg 0 true; EAddctx 0; ETauWakeUnlock; EWake;
             EAccepted; EAlloc 1; EReg 1 true; EConn 1 5; ESend 5 [1;2;3]%Z; EPclose 5] in
   (* data and hang-up are both pending: cb_close is not enabled before the bytes are read *)
   step (run init h) (EClose 1) = None /\
